@@ -1255,11 +1255,32 @@ pub fn gen_chain_selector(rng: &mut Rng, tag: &str, steps: usize) -> String {
 
 // ---------------------------------------------------------------- config
 
-const ASCII_AFFIX: &[&str] = &["", "", "*", "_", "**", "`", "[", "]", "<", ">", "~~", " ", "(", ")", "!", "#", "--", "abc", "{{", "}}"];
-const ASCII_PREFIX: &[&str] = &["", "> ", "* ", "- ", "# ", "|", "    ", "=", ">>> ", "o "];
+// ASCII includes the control characters: a decorator may well return a tab.
+const ASCII_AFFIX: &[&str] = &[
+    "", "", "*", "_", "**", "`", "[", "]", "<", ">", "~~", " ", "(", ")", "!", "#", "--", "abc", "{{", "}}", "\t", "\u{1}",
+    "a\u{8}", "\n", "\u{7f}", "  ", "\u{1b}[1m",
+];
+const ASCII_PREFIX: &[&str] = &[
+    "", "> ", "* ", "- ", "# ", "|", "    ", "=", ">>> ", "o ", ">\t", "-\t", "\t", "\u{1}> ", "> \n", "\u{7f}",
+    "\u{1b}[2m> ",
+];
 
 pub fn gen_custom_deco(rng: &mut Rng) -> CustomDeco {
-    let mut a = |rng: &mut Rng| rng.pick(ASCII_AFFIX).to_string();
+    let mut a = |rng: &mut Rng| {
+        if rng.chance(1, 40) {
+            // a very long decoration
+            rng.pick(&["=", "ab", "<>", " "]).repeat(rng.pick(&[50usize, 300, 10_000]))
+        } else {
+            rng.pick(ASCII_AFFIX).to_string()
+        }
+    };
+    let long_prefix = |rng: &mut Rng, base: &str| -> String {
+        if rng.chance(1, 30) {
+            rng.pick(&[">", "- ", "#", " "]).repeat(rng.pick(&[30usize, 250, 5_000]))
+        } else {
+            base.to_string()
+        }
+    };
     CustomDeco {
         link_start: a(rng),
         link_end: a(rng),
@@ -1268,9 +1289,18 @@ pub fn gen_custom_deco(rng: &mut Rng) -> CustomDeco {
         strike: (a(rng), a(rng)),
         code: (a(rng), a(rng)),
         img: (a(rng), a(rng)),
-        header: rng.pick(&["#", "", "=", "##", "h"]).to_string(),
-        quote: rng.pick(ASCII_PREFIX).to_string(),
-        ul: rng.pick(ASCII_PREFIX).to_string(),
+        header: {
+            let b = rng.pick(&["#", "", "=", "##", "h"]);
+            long_prefix(rng, b)
+        },
+        quote: {
+            let b = rng.pick(ASCII_PREFIX);
+            long_prefix(rng, b)
+        },
+        ul: {
+            let b = rng.pick(ASCII_PREFIX);
+            long_prefix(rng, b)
+        },
         ol_suffix: rng.pick(&[". ", ") ", "", ":", " - "]).to_string(),
         sup: (a(rng), a(rng)),
         // a decorator may label items any way it likes: the longest label
@@ -1281,6 +1311,14 @@ pub fn gen_custom_deco(rng: &mut Rng) -> CustomDeco {
             2 => ["", "a", "", "bbbbbbbb"].iter().map(|s| s.to_string()).collect(),
             _ => vec![],
         },
+        // prefixes which depend on the nesting level
+        per_level: match rng.below(6) {
+            0 => ["", "-", "--", "---"].iter().map(|s| s.to_string()).collect(),
+            1 => ["..", ""].iter().map(|s| s.to_string()).collect(),
+            2 => ["0> ", "1> ", "2> ", "3> ", "4> ", "5> ", "6> ", "7> ", "8> ", "9> ", "10> "].iter().map(|s| s.to_string()).collect(),
+            _ => vec![],
+        },
+        counting: rng.chance(1, 4),
     }
 }
 
@@ -1353,6 +1391,10 @@ pub fn gen_config(rng: &mut Rng, g: &ConfigGen) -> ConfigSpec {
                 });
             }
         }
+    }
+    // the builder methods may be called in any order, some of them twice
+    if !c.is_default_options() && rng.chance(1, 3) {
+        c.builder_order = rng.next_u64() | 1;
     }
     c
 }
@@ -1550,6 +1592,19 @@ pub fn gen_plan(rng: &mut Rng, doc_len: usize, interesting: &[usize], g: &PlanGe
             ErrKind::TimedOut,
             ErrKind::Other,
             ErrKind::InvalidData,
+            ErrKind::BrokenPipe,
+            ErrKind::PermissionDenied,
+            ErrKind::NotFound,
+            ErrKind::InvalidInput,
+            ErrKind::OutOfMemory,
+            ErrKind::Unsupported,
+            ErrKind::ConnectionAborted,
+            ErrKind::NotConnected,
+            ErrKind::WriteZero,
+            ErrKind::RawEio,
+            ErrKind::RawEagain,
+            ErrKind::RawEnomem,
+            ErrKind::OtherWrappingInterrupted,
         ]);
         plan.err_at = Some((at, kind));
     }
